@@ -13,7 +13,8 @@ SWAPS = {30: 1, 31: 2, 32: 4, 33: 8, 34: 16, 35: 32, 36: 64}
 OPNAMES = {0: 'add', 1: 'add_assign', 2: 'xor', 3: 'xor_assign', 4: 'and', 5: 'or', 6: 'not', 7: 'andnot', 8: 'bswap',
            20: 'shuffle1230', 21: 'shuffle2301', 22: 'shuffle3012', 23: 'shuffle_lane_words1230', 24: 'shuffle_lane_words2301',
            25: 'shuffle_lane_words3012', 40: 'extract', 41: 'insert', 42: 'to_lanes', 43: 'from_lanes', 44: 'to_scalars', 45: 'transpose4',
-           50: 'read_le', 51: 'read_be', 52: 'write_le', 53: 'write_be', 54: 'unpack/into round trip'}
+           50: 'read_le', 51: 'read_be', 52: 'write_le', 53: 'write_be', 54: 'unpack/into round trip',
+           55: 'into 32-bit-word vector (From conversion)', 56: 'into 64-bit-word vector (From conversion)'}
 for k, v in ROTS.items():
     OPNAMES[k] = 'rotate_each_word_right%d' % v
 for k, v in SWAPS.items():
@@ -24,19 +25,22 @@ BIT0 = [2, 3, 4, 5, 6, 7, 54]
 ARITH = [0, 1, 8]
 ROT32 = [10, 11, 12, 13, 14, 15, 16, 17]
 BYTES = [50, 51, 52, 53]
+# conversions between the word views of one machine (declared by the x86 machines in the where-clauses of their u128xN impls)
+CONV = [55, 56]
+X86_ONLY_OPS = set(CONV)
 VOCAB = {
     0: BIT0 + ARITH + ROT32 + [20, 21, 22, 23, 24, 25] + BYTES + [40, 41, 42, 43],
     1: BIT0 + ARITH + ROT32 + [18] + [40, 41, 42, 43],
-    2: BIT0 + ROT32 + [18] + list(SWAPS) + [42, 43],
+    2: BIT0 + ROT32 + [18] + list(SWAPS) + [42, 43] + CONV,
     3: BIT0 + ARITH + ROT32 + BYTES + [40, 41, 42, 43],
     4: BIT0 + ARITH + ROT32 + [18] + BYTES + [40, 41, 42, 43],
     5: BIT0 + ARITH + ROT32 + [18] + [20, 21, 22] + BYTES + [40, 41, 42, 43],
-    6: BIT0 + ROT32 + [18] + list(SWAPS) + [40, 41, 42, 43],
+    6: BIT0 + ROT32 + [18] + list(SWAPS) + [40, 41, 42, 43] + CONV,
     7: BIT0 + ARITH + ROT32 + [23, 24, 25] + BYTES + [40, 41, 42, 43, 44, 45],
     8: BIT0 + ARITH + ROT32 + [18] + [40, 41, 42, 43],
-    9: BIT0 + ROT32 + [18] + list(SWAPS) + [40, 41, 42, 43],
+    9: BIT0 + ROT32 + [18] + list(SWAPS) + [40, 41, 42, 43] + CONV,
 }
-C13_OPS = {40, 41, 42, 43, 44, 45, 50, 51, 52, 53, 54}     # data movement (C13); the rest is C12
+C13_OPS = {40, 41, 42, 43, 44, 45, 50, 51, 52, 53, 54, 55, 56}     # data movement (C13); the rest is C12
 
 
 def words(v, w):
@@ -94,7 +98,7 @@ def expected(ty, op, a, b, c=None, d=None, i=0):
         es = words(a, eb)
         es[i] = T.extract(b, 0, eb)
         r = T.concat(es)
-    elif op in (42, 43, 44, 50, 52, 54):
+    elif op in (42, 43, 44, 50, 52, 54, 55, 56):
         r = a
     elif op in (51, 53):
         r = T.concat([T.bswap(x) for x in wa])
